@@ -24,6 +24,7 @@ pub struct Cfg {
     pub signed_wide: bool,       // signed 8/16-byte values (narrowing finding D9)
     pub cross_kind: bool,        // reuse an id across template kinds (the later definition replaces the earlier)
     pub nonzero_padding: bool,
+    pub odd_padding: bool, // padding that is legal to receive but not what alignment requires
 }
 
 impl Default for Cfg {
@@ -44,6 +45,7 @@ impl Default for Cfg {
             signed_wide: false,
             cross_kind: false,
             nonzero_padding: true,
+            odd_padding: false,
         }
     }
 }
@@ -337,16 +339,29 @@ impl Exporter {
             let k = rng.below(100);
             if (k < 25 || !have_t) && !(k >= 90 && have_o) {
                 if cfg.options && k % 5 == 0 {
-                    let n = 1 + rng.usize(2);
+                    let n = 1 + rng.usize(4);
                     let templates: Vec<V9OptTmpl> = (0..n).map(|_| self.v9_new_opt_template(rng, cfg, pools)).collect();
                     // options template records are 6+4k bytes: pad the flowset to a 4-byte boundary
                     let len: usize = templates.iter().map(|t| t.wire().len()).sum();
-                    let padding = vec![0u8; (4 - (len % 4)) % 4];
+                    let padding = if cfg.odd_padding && rng.chance(1, 3) {
+                        // anything shorter than an options template record (6 bytes) is padding
+                        let k = rng.usize(6);
+                        if rng.chance(1, 2) { rng.bytes(k) } else { vec![0u8; k] }
+                    } else {
+                        vec![0u8; (4 - (len % 4)) % 4]
+                    };
                     flowsets.push(V9FlowSet::OptionsTemplate { templates, padding });
                 } else {
                     let n = 1 + rng.usize(3);
                     let templates: Vec<V9Tmpl> = (0..n).map(|_| self.v9_new_template(rng, cfg, pools)).collect();
-                    flowsets.push(V9FlowSet::Template { templates, padding: vec![] });
+                    let padding = if cfg.odd_padding && rng.chance(1, 5) {
+                        // anything shorter than a template record header (4 bytes) is padding
+                        let k = 1 + rng.usize(3);
+                        if rng.chance(1, 2) { rng.bytes(k) } else { vec![0u8; k] }
+                    } else {
+                        vec![]
+                    };
+                    flowsets.push(V9FlowSet::Template { templates, padding });
                 }
             } else if k >= 85 && have_o && cfg.options {
                 let ids: Vec<u16> = self.v9_o.keys().cloned().collect();
@@ -517,7 +532,14 @@ impl Exporter {
                     let n = if cfg.multi_tmpl_sets { 1 + rng.usize(3) } else { 1 };
                     let records: Vec<IpfixOptTmpl> = (0..n).map(|_| self.ipfix_new_opt_template(rng, cfg, pools)).collect();
                     let len: usize = records.iter().map(|t| t.wire().len()).sum();
-                    let padding = if rng.chance(1, 2) { vec![0u8; (4 - (len % 4)) % 4] } else { vec![] };
+                    let padding = if cfg.odd_padding && rng.chance(1, 3) {
+                        let k = rng.usize(6);
+                        if rng.chance(1, 2) { rng.bytes(k) } else { vec![0u8; k] }
+                    } else if rng.chance(1, 2) {
+                        vec![0u8; (4 - (len % 4)) % 4]
+                    } else {
+                        vec![]
+                    };
                     sets.push(IpfixSet::OptionsTemplate { records, padding });
                 } else {
                     let n = if cfg.multi_tmpl_sets { 1 + rng.usize(3) } else { 1 };
